@@ -190,6 +190,13 @@ func Render(c *Case) map[string]string {
 	if has("features") {
 		sb.WriteString("  int32 implicit = 19 [features.field_presence = IMPLICIT];\n")
 	}
+	if has("jsoncollide") {
+		// default JSON names of both fields are "fooBar": a warning in proto2, and it must stay one on re-link
+		fmt.Fprintf(&sb, "  %sint32 foo_bar = 21;\n  %sint32 fooBar = 22;\n", lbl, lbl)
+	}
+	if has("mapfeatures") {
+		sb.WriteString("  map<int32, string> mf1 = 23 [features.utf8_validation = NONE];\n  map<string, int64> mf2 = 24 [features.repeated_field_encoding = EXPANDED];\n")
+	}
 	if has("import") {
 		fmt.Fprintf(&sb, "  %sdep.pkg.DepMsg d = 16;\n  %sdep.pkg.DepEnum de = 20;\n", lbl, lbl)
 	}
@@ -317,6 +324,12 @@ func MeasuredKinds(fd *descriptorpb.FileDescriptorProto) map[string]bool {
 			if fs.GetFieldPresence() == descriptorpb.FeatureSet_LEGACY_REQUIRED {
 				k["legacy_required"] = true
 			}
+		}
+		if f.GetName() == "fooBar" {
+			k["json_default_collision"] = true
+		}
+		if fs := f.GetOptions().GetFeatures(); fs != nil && (f.GetName() == "mf1" || f.GetName() == "mf2") {
+			k["map_field_features"] = true
 		}
 		if f.GetOptions().GetRetention() == descriptorpb.FieldOptions_RETENTION_SOURCE {
 			k["source_retention_option"] = true
